@@ -55,6 +55,13 @@ S_True    == <<"t","r","u","e">>
 S_Frac    == <<"1",".","5">>
 S_Big     == <<"9","9","9","9","9","9","9","9","9","9","9">>
 S_2p31    == <<"2","1","4","7","4","8","3","6","4","8">>
+\* Content-Length values by size: 10 / 12 / 15 / 19 digits fit int64 but not int32 (a reader that accepted
+\* them would allocate the declared size before a byte of the body is there), 20 digits overflow int64
+S_Len10   == <<"4","2","9","4","9","6","7","2","9","6">>
+S_Len12   == <<"5","4","9","7","5","5","8","1","3","8","8","8">>
+S_Len15   == <<"2","8","1","4","7","4","9","7","6","7","1","0","6","5","7">>
+S_Len19   == <<"9","2","2","3","3","7","2","0","3","6","8","5","4","7","7","5","8","0","7">>
+S_Len20   == <<"1","8","4","4","6","7","4","4","0","7","3","7","0","9","5","5","1","6","1","6">>
 S_Max32   == <<"2","1","4","7","4","8","3","6","4","7">>
 I_2p53    == <<"9","0","0","7","1","9","9","2","5","4","7","4","0","9","9","2">>
 I_m2p53   == <<"-","9","0","0","7","1","9","9","2","5","4","7","4","0","9","9","2">>
@@ -174,6 +181,7 @@ Decode(w) ==
 
 \* defect classes ----------------------------------------------------------
 HdrMustErr  == {"noColon", "nonNumeric", "emptyValue", "zero", "negative", "overflow", "overflow32",
+                "len10", "len12", "len15", "len19", "len20",
                 "missing", "missingOther", "lenShort", "lenLong"}
 HdrTolerant == {"extraBefore", "extraAfter", "lfOnly", "noSpace", "plusSign", "leadZero", "dupLen",
                 "leadSpace"}                                     \* today's reader accepts these
@@ -231,6 +239,11 @@ DefFrame(c, m) ==
        [] c = "negative"     -> S_CLsp \o <<"-">> \o Dec(n) \o CRLF \o CRLF \o b
        [] c = "overflow"     -> S_CLsp \o S_Big \o CRLF \o CRLF \o b
        [] c = "overflow32"   -> S_CLsp \o S_2p31 \o CRLF \o CRLF \o b
+       [] c = "len10"        -> S_CLsp \o S_Len10 \o CRLF \o CRLF \o b
+       [] c = "len12"        -> S_CLsp \o S_Len12 \o CRLF \o CRLF \o b
+       [] c = "len15"        -> S_CLsp \o S_Len15 \o CRLF \o CRLF \o b
+       [] c = "len19"        -> S_CLsp \o S_Len19 \o CRLF \o CRLF \o b
+       [] c = "len20"        -> S_CLsp \o S_Len20 \o CRLF \o CRLF \o b
        [] c = "missing"      -> CRLF \o b
        [] c = "missingOther" -> S_CT \o CRLF \o CRLF \o b
        [] c = "lenShort"     -> Header(n - 1) \o b
@@ -323,6 +336,14 @@ HdrView ==
       len  |-> IF colon = 0 THEN BadLen ELSE ParseLen(Trim(SubSeq(line, colon + 1, Len(line))))]
 Fatal(c) == /\ reads' = Append(reads, Rd("err", NoMsg, c, TRUE, pos', Len(stream)))
             /\ pc' = "done"
+\* end of the header block that contains offset p (the LF of its empty line), or the end of the stream
+HeaderEnd(p) == LET E == {i \in (p + 1)..Len(stream) :
+                            /\ stream[i] = "\n"
+                            /\ (stream[i - 1] = "\n" \/ (i >= 3 /\ stream[i - 1] = "\r" /\ stream[i - 2] = "\n"))}
+                IN IF E = {} THEN Len(stream) ELSE Min(E)
+\* a Content-Length that is rejected: the error comes before anything behind the header is touched
+FatalInHeader(c) == /\ reads' = Append(reads, Rd("err", NoMsg, c, TRUE, pos', HeaderEnd(pos')))
+                    /\ pc' = "done"
 
 \* frame.go Read: ReadString hits EOF before any byte of this call: clean end of stream (io.EOF)
 HdrCleanEOF(h) == /\ h.lf = 0 /\ pos = Len(stream) /\ pos = rstart
@@ -350,7 +371,7 @@ HdrContentLength(h) == /\ h.lf # 0 /\ h.colon # 0 /\ h.name = S_CL /\ h.len.ok
                        /\ UNCHANGED <<ms, defect, stream, rstart, reads, pc>>
 \* "failed parsing Content-Length" / "invalid Content-Length"
 HdrBadLength(h) == /\ h.lf # 0 /\ h.colon # 0 /\ h.name = S_CL /\ ~h.len.ok
-                   /\ pos' = h.lf /\ Fatal("bad-length")
+                   /\ pos' = h.lf /\ FatalInHeader("bad-length")
                    /\ UNCHANGED <<ms, defect, stream, rstart, length>>
 \* default: ignoring unknown headers
 HdrUnknown(h) == /\ h.lf # 0 /\ h.colon # 0 /\ h.name # S_CL
